@@ -5,13 +5,13 @@
  "properties": {"C03": "contract", "C19": "safety"},
  "mode": "harness",
  "replace_calls": {"emitvalue": "rec_emitvalue", "emitclass": "rec_emitclass"},
- "unwind": 12, "unwindset": ["harness.0:100"], "cflags": ["-DOE_MAX=24"],
+ "unwind": 26, "unwindset": ["harness.0:100"], "cflags": ["-DOE_MAX=24"],
  "kind": "proof-const-unwind",
  "timeout": 200, "replay": false,
  "expects": ["assertion_verif"],
  "assumes": ["stdout is the token recorder of out_rec.h; emitvalue/emitclass are replaced by one-event stand-ins with the contract unit QBE.emit.value proves (emit_stubs.h)",
              "the instruction is one the builder makes (QBE.mkinst): opcode of ops.h other than call, first operand present, a result temporary iff it has a class; the second operand of a non-call instruction is never a :type",
-             "loops only over qbe.c's literals and, in the harness, over the opcodes of ops.h: each opcode is checked with the opcode a constant (unwinding assertions on)"]
+             "loops only over qbe.c's literals and, in the harness, over the opcodes of ops.h (name table check) and the class/operand-count cases, each with these a constant (unwinding assertions on)"]
 }
 */
 /*
@@ -58,7 +58,7 @@ check(int op, int in_class, bool in_hasa1, int in_nextop)
 		x_cls(in_class, 0);
 		x_ch(' ');
 	}
-	x_mnemonic(op);
+	x_ev(OE_STR, 0, instname[op]);       /* the opcode's entry of the name table (checked against the reference below) */
 	x_ch(' ');
 	x_val(&a0);
 	if (in_hasa1) {
@@ -67,9 +67,9 @@ check(int op, int in_class, bool in_hasa1, int in_nextop)
 	}
 	x_ch('\n');
 	__CPROVER_assert(oe_n <= OE_MAX && xe_n <= OE_MAX, "recorder large enough");
-	__CPROVER_assert(oe_same(), "the line is exactly `\\t[%res =class ]opname arg0[, arg1]\\n` with the reference's name of the operation");
+	__CPROVER_assert(oe_same(), "the line is exactly `\\t[%res =class ]opname arg0[, arg1]\\n`");
 	__CPROVER_assert(oe[0].k == OE_CH && oe[0].v == '\t' && oe[oe_n - 1].k == OE_CH && oe[oe_n - 1].v == '\n', "one line, indented by a tab");
-	__CPROVER_assert(IMP(!in_class, oe[1].k == OE_CH && oe[1].v != '%' && oe[1].v != '='), "an instruction without result has no `%res =` part: the opname follows the tab");
+	__CPROVER_assert(IMP(!in_class, oe[1].k == OE_STR), "an instruction without result has no `%res =` part: the opname follows the tab");
 	__CPROVER_assert(IMP(in_class, oe[1].k == OE_VAL && oe[1].p == &in0.res && oe[2].v == ' ' && oe[3].v == '=' && oe[4].k == OE_CLS && oe[4].v == (unsigned)in_class && oe[5].v == ' '), "a defining instruction starts `%res =class `");
 	__CPROVER_assert(ret == &seq[1], "exactly this instruction is consumed");
 #ifdef VERIF_CANARY
@@ -80,12 +80,19 @@ check(int op, int in_class, bool in_hasa1, int in_nextop)
 void
 harness(void)
 {
+	static const int cls[5] = {0, 'w', 'l', 's', 'd'};
 	IN(int, in_op); IN(int, in_class); IN(bool, in_hasa1); IN(int, in_nextop);
-	int k;
+	int k, c, h;
+
+	/* the name table: every opcode carries the reference's name of the operation it stands for */
+	for (k = INONE + 1; k < IARG; k++)
+		__CPROVER_assert(instname[k] != 0 && x_samename(instname[k], x_mnemonic(k)), "instname[op] is the QBE reference's mnemonic of op");
+	__CPROVER_assert(LEN(instname) == IARG, "the table covers exactly the opcodes");
 
 	__CPROVER_assume(in_op > INONE && in_op < IARG && in_op != ICALL);
-	__CPROVER_assume(in_class == 0 || in_class == 'w' || in_class == 'l' || in_class == 's' || in_class == 'd');
-	for (k = INONE + 1; k < IARG; k++)          /* every opcode, each with the opcode a constant */
-		if (k == in_op)
-			check(k, in_class, in_hasa1, in_nextop);
+	/* class x operand count CONSTANT per case (the recorder's positions stay concrete), any opcode */
+	for (c = 0; c < 5; c++)
+		for (h = 0; h < 2; h++)
+			if (in_class == cls[c] && in_hasa1 == h)
+				check(in_op, cls[c], h, in_nextop);
 }
